@@ -109,3 +109,145 @@ Theorem C01_event_machine_equals_model : forall n v,
   Machine.machine_validate [] (Machine.of_snode n) v = validate n v.
 Proof. exact MachineProofs.machine_eq_validate. Qed.
 Print Assumptions C01_event_machine_equals_model.
+
+(* ------------------------------------------------------------------------------------------------
+   From the schema TEXT to the verdict (Schema/E2E.v: scan -> load -> w_of_node -> compile -> validate),
+   for plain JSON schema texts of any depth, width and layout (blanks, tabs, CR, LF in every gap).
+   Proofs in Schema/E2EProofs.v on top of SchemaScan/LoaderProofs.v.  Hypothesis [no_exponent]: the
+   schema scanner refuses an exponent part in a number. *)
+From JS Require Json.Grammar Schema.E2E Schema.E2EProofs SchemaScan.Loader SchemaScan.LoaderProofs.
+
+Theorem C01_text_to_verdict_plain_json : forall optd w1 v w2 w d,
+  Json.Grammar.all_blank w1 = true -> Json.Grammar.wf v = true -> Json.Grammar.all_blank w2 = true ->
+  LoaderProofs.no_exponent v = true -> LoaderProofs.distinct_keys v = true ->
+  E2EProofs.w_of_jv v = Some w ->
+  E2E.e2e_validate optd (w1 ++ Json.Grammar.render v ++ w2) d = E2E.EVerdict (validate (compile optd w) d).
+Proof. exact E2EProofs.e2e_plain_json. Qed.
+Print Assumptions C01_text_to_verdict_plain_json.
+
+Theorem C01_text_accepts_iff_shape : forall optd w1 v w2 w d,
+  Json.Grammar.all_blank w1 = true -> Json.Grammar.wf v = true -> Json.Grammar.all_blank w2 = true ->
+  LoaderProofs.no_exponent v = true -> LoaderProofs.distinct_keys v = true ->
+  E2EProofs.w_of_jv v = Some w ->
+  (E2E.e2e_validate optd (w1 ++ Json.Grammar.render v ++ w2) d = E2E.EVerdict None <->
+   shape_ok (compile optd w) d = true).
+Proof. exact E2EProofs.e2e_plain_json_accepts_iff_shape. Qed.
+Print Assumptions C01_text_accepts_iff_shape.
+
+(* the written schema of such a text always exists *)
+Theorem C01_text_schema_exists : forall v,
+  Json.Grammar.wf v = true -> LoaderProofs.no_exponent v = true -> exists w, E2EProofs.w_of_jv v = Some w.
+Proof. exact E2EProofs.w_of_jv_total. Qed.
+Print Assumptions C01_text_schema_exists.
+
+Theorem C01_duplicate_key_in_schema_text : forall optd w1 v w2 p d,
+  Json.Grammar.all_blank w1 = true -> Json.Grammar.wf v = true -> Json.Grammar.all_blank w2 = true ->
+  LoaderProofs.no_exponent v = true ->
+  LoaderProofs.dup_pos (LoaderProofs.len w1) v = Some p ->
+  E2E.e2e_validate optd (w1 ++ Json.Grammar.render v ++ w2) d = E2E.ELoad 402%N p.
+Proof. exact E2EProofs.e2e_duplicate_key. Qed.
+Print Assumptions C01_duplicate_key_in_schema_text.
+
+(* a 3-level schema text with blanks and line breaks:
+     LF SP { LF "a" SP : TAB [ LF { "k" : SP "s" , SP "z" LF : null TAB } CR LF ] LF , SP "b" : 1 CR LF } TAB LF
+   one document accepted, one refused (wrong kind of "k": 210), one with a missing required key (206);
+   the same text with "b" renamed to "a" is refused by the loader (402) at the second "a" *)
+Example C01_text_three_levels :
+  let sp := [x20] in let tab := [x09] in let nl := [x0a] in let crlf := [x0d; x0a] in
+  let key c := [x22; c; x22] in
+  let inner := Json.Grammar.JObj [ ([], key x6b, [], sp, Json.Grammar.JTok [x22; x73; x22], []);
+                                   (sp, key x7a, nl, [], Json.Grammar.JTok [x6e; x75; x6c; x6c], tab) ] in
+  let arr := Json.Grammar.JArr [ (nl, inner, crlf) ] in
+  let v := Json.Grammar.JObj [ (nl, key x61, sp, tab, arr, nl); (sp, key x62, [], [], Json.Grammar.JTok [x31], crlf) ] in
+  let vdup := Json.Grammar.JObj [ (nl, key x61, sp, tab, arr, nl); (sp, key x61, [], [], Json.Grammar.JTok [x31], crlf) ] in
+  let w1 := nl ++ sp in let w2 := tab ++ nl in
+  let text := w1 ++ Json.Grammar.render v ++ w2 in
+  let item := JObj [([x6b], JStr); ([x7a], JNull)] in
+  Json.Grammar.all_blank w1 = true /\ Json.Grammar.wf v = true /\ Json.Grammar.all_blank w2 = true /\
+  LoaderProofs.no_exponent v = true /\ LoaderProofs.distinct_keys v = true /\
+  E2EProofs.w_of_jv v =
+    Some (WObj [ ([x61], None, WArr [WObj [([x6b], None, WLit KStr false false); ([x7a], None, WLit KNull false false)]
+                                          false false] false false);
+                 ([x62], None, WLit KInt false false) ] false false) /\
+  E2E.e2e_validate false text (JObj [([x61], JArr [item; item]); ([x62], JInt)]) = E2E.EVerdict None /\
+  E2E.e2e_validate false text (JObj [([x61], JArr [JObj [([x6b], JInt); ([x7a], JNull)]]); ([x62], JInt)])
+    = E2E.EVerdict (Some 210) /\
+  E2E.e2e_validate false text (JObj [([x61], JArr []); ([x63], JInt)]) = E2E.EVerdict (Some 206) /\
+  LoaderProofs.dup_pos (LoaderProofs.len w1) vdup = Some 40%N /\
+  E2E.e2e_validate false (w1 ++ Json.Grammar.render vdup ++ w2) (JObj []) = E2E.ELoad 402%N 40%N.
+Proof. vm_compute. repeat split; reflexivity. Qed.
+
+(* ------------------------------------------------------------------ from BOTH texts
+   Schema.Validate on a plain JSON schema text and a JSON document text, each of any size and layout: the pipeline of
+   the four models (schema scanner, loader, JSON scanner, event-level validator machine: E2E.validate_texts) returns
+   exactly the verdict of the recursive validator on the trees the two texts spell; proofs in Schema/E2ETextsProofs.v
+   (document side: Schema/E2EDocProofs.v). *)
+From Coq Require Import String.
+From JS Require Schema.E2EDocProofs Schema.E2ETextsProofs.
+
+Theorem C01_validate_from_both_texts : forall optd w1 v w2 w u1 d u2 j,
+  Json.Grammar.all_blank w1 = true -> Json.Grammar.wf v = true -> Json.Grammar.all_blank w2 = true ->
+  LoaderProofs.no_exponent v = true -> LoaderProofs.distinct_keys v = true -> E2EProofs.w_of_jv v = Some w ->
+  Json.Grammar.all_blank u1 = true -> Json.Grammar.wf d = true -> Json.Grammar.all_blank u2 = true ->
+  E2EDocProofs.jval_of_jv d = Some j ->
+  E2E.validate_texts optd (w1 ++ Json.Grammar.render v ++ w2) (u1 ++ Json.Grammar.render d ++ u2) =
+  E2E.TVerdict (validate (compile optd w) j).
+Proof. exact E2ETextsProofs.validate_texts_plain_json. Qed.
+Print Assumptions C01_validate_from_both_texts.
+
+Theorem C01_both_texts_accept_iff_shape : forall optd w1 v w2 w u1 d u2 j,
+  Json.Grammar.all_blank w1 = true -> Json.Grammar.wf v = true -> Json.Grammar.all_blank w2 = true ->
+  LoaderProofs.no_exponent v = true -> LoaderProofs.distinct_keys v = true -> E2EProofs.w_of_jv v = Some w ->
+  Json.Grammar.all_blank u1 = true -> Json.Grammar.wf d = true -> Json.Grammar.all_blank u2 = true ->
+  E2EDocProofs.jval_of_jv d = Some j ->
+  (E2E.validate_texts optd (w1 ++ Json.Grammar.render v ++ w2) (u1 ++ Json.Grammar.render d ++ u2) = E2E.TVerdict None <->
+   shape_ok (compile optd w) j = true).
+Proof. exact E2ETextsProofs.validate_texts_accepts_iff_shape. Qed.
+Print Assumptions C01_both_texts_accept_iff_shape.
+
+(* on such a schema text a well-formed document text is stuck (json.Guess has no kind for a token) exactly when it
+   has a numeral 0e.. / -0e.. or an exponent the library's number type refuses; otherwise there is a verdict *)
+Theorem C01_both_texts_stuck_iff : forall optd w1 v w2 w u1 d u2,
+  Json.Grammar.all_blank w1 = true -> Json.Grammar.wf v = true -> Json.Grammar.all_blank w2 = true ->
+  LoaderProofs.no_exponent v = true -> LoaderProofs.distinct_keys v = true -> E2EProofs.w_of_jv v = Some w ->
+  Json.Grammar.all_blank u1 = true -> Json.Grammar.wf d = true -> Json.Grammar.all_blank u2 = true ->
+  (E2E.validate_texts optd (w1 ++ Json.Grammar.render v ++ w2) (u1 ++ Json.Grammar.render d ++ u2) = E2E.TStuck <->
+   (E2EDocProofs.no_zero_int_exp d && E2EDocProofs.exps_fit d)%bool = false).
+Proof. exact E2ETextsProofs.validate_texts_stuck_iff. Qed.
+Print Assumptions C01_both_texts_stuck_iff.
+
+(* the 3-level schema text of C01_text_three_levels (an object with an array of objects, blanks and line breaks at
+   the gaps) against document TEXTS in other layouts (SP TAB CR LF at the gaps, leading TAB, trailing LF):
+     accepted: the keys in another order, two items in the array, the integer written -2E+3, a string with an escaped
+               solidus and an escaped quote, an empty string;
+     refused:  a number where the example has a string (210); an empty array where it has an object (E_LEX_OBJECT);
+     stuck:    the accepted text with the numeral 0e1 (json.Guess has no kind for it);
+     not JSON: a trailing comma (DocumentError 301 at its offset). *)
+Example C01_both_texts_three_levels :
+  let sp := [x20] in let tab := [x09] in let nl := [x0a] in let crlf := [x0d; x0a] in
+  let key c := [x22; c; x22] in
+  let T s := Json.Grammar.JTok (of_string s) in
+  let inner := Json.Grammar.JObj [ ([], key x6b, [], sp, Json.Grammar.JTok [x22; x73; x22], []);
+                                   (sp, key x7a, nl, [], Json.Grammar.JTok [x6e; x75; x6c; x6c], tab) ] in
+  let arr := Json.Grammar.JArr [ (nl, inner, crlf) ] in
+  let v := Json.Grammar.JObj [ (nl, key x61, sp, tab, arr, nl); (sp, key x62, [], [], Json.Grammar.JTok [x31], crlf) ] in
+  let stext := (nl ++ sp) ++ Json.Grammar.render v ++ (tab ++ nl) in
+  let item1 := Json.Grammar.JObj [ ([], key x7a, tab, [], T "null"%string, sp); ([], key x6b, [], sp, T """x\/\""y"""%string, sp) ] in
+  let item2 := Json.Grammar.JObj [ (sp, key x6b, sp, sp, T """"""%string, sp); (sp, key x7a, sp, sp, T "null"%string, sp) ] in
+  let doc b := Json.Grammar.JObj [ (crlf, key x62, sp, [], T b, sp);
+                                   (nl, key x61, [], sp, Json.Grammar.JArr [ (sp, item1, nl); (sp, item2, sp) ], sp) ] in
+  let dtext b := tab ++ Json.Grammar.render (doc b) ++ nl in
+  let bad := Json.Grammar.JObj [ (sp, key x61, sp, sp,
+                                  Json.Grammar.JArr [ (sp, Json.Grammar.JObj [ (sp, key x6b, sp, tab, T "7"%string, sp);
+                                                                               (sp, key x7a, [], [], T "null"%string, sp) ], sp) ], sp);
+                                 (sp, key x62, [], [], T "1"%string, sp) ] in
+  (Json.Grammar.wf v = true /\ Json.Grammar.wf (doc "-2E+3"%string) = true /\ Json.Grammar.wf bad = true /\
+   Json.Grammar.wf (doc "0e1"%string) = true) /\
+  E2EDocProofs.jval_of_jv (doc "-2E+3"%string) =
+    Some (JObj [([x62], JInt); ([x61], JArr [JObj [([x7a], JNull); ([x6b], JStr)]; JObj [([x6b], JStr); ([x7a], JNull)]])]) /\
+  E2E.validate_texts false stext (dtext "-2E+3"%string) = E2E.TVerdict None /\
+  E2E.validate_texts false stext (Json.Grammar.render bad) = E2E.TVerdict (Some 210) /\
+  E2E.validate_texts false stext (sp ++ Json.Grammar.render (Json.Grammar.JArr0 sp)) = E2E.TVerdict (Some E_LEX_OBJECT) /\
+  E2E.validate_texts false stext (dtext "0e1"%string) = E2E.TStuck /\
+  E2E.validate_texts false stext (of_string "{""a"":[],""b"":1,}"%string) = E2E.TDoc 301 14%N.
+Proof. vm_compute. repeat split; reflexivity. Qed.
